@@ -394,3 +394,54 @@ Definition radio_connect_calls (serials : list str) (uri : str) : option (Z * li
   | POk devid ch rate addr _ => Some (devid, [RSetChannel ch; RSetDataRate rate; RSetAddress addr; RSetArc 3])
   | _ => None
   end.
+
+(* ---------------------------------------------------------------- uri_helper.address_from_env *)
+(* Models the code WITH fixes/F20b.patch: the address is the third path component of urlparse(uri), the default
+   when there is none; int(address, 16); ValueError => message on stderr and None.
+   Only for URIs that start with "radio://" (urlsplit_radio). *)
+Fixpoint hex_digits_acc (s : str) (acc : Z) (after_digit : bool) : option Z :=
+  match s with
+  | [] => if after_digit then Some acc else None
+  | c :: r =>
+      match hexval c with
+      | Some d => hex_digits_acc r (16 * acc + d) true
+      | None =>
+          if Ascii.eqb c c_under && after_digit then
+            match r with
+            | d :: _ => match hexval d with Some _ => hex_digits_acc r acc false | None => None end
+            | [] => None
+            end
+          else None
+      end
+  end.
+
+(* "0x"/"0X" prefix, after which one underscore is allowed *)
+Definition strip_0x (s : str) : str :=
+  match s with
+  | z :: x :: r =>
+      if Ascii.eqb z c_zero && (Ascii.eqb x "x"%char || Ascii.eqb x "X"%char)
+      then match r with u :: r' => if Ascii.eqb u c_under then r' else r | [] => r end
+      else s
+  | _ => s
+  end.
+
+(* Python int(s, 16) for printable ASCII; None = ValueError *)
+Definition py_int16 (s : str) : option Z :=
+  match strip c_space s with
+  | [] => None
+  | c :: r =>
+      if Ascii.eqb c c_minus then option_map Z.opp (hex_digits_acc (strip_0x r) 0 false)
+      else if Ascii.eqb c c_plus then hex_digits_acc (strip_0x r) 0 false
+      else hex_digits_acc (strip_0x (c :: r)) 0 false
+  end.
+
+Inductive envres := EnvAddr (a : Z) | EnvNone | EnvRaise.
+Definition address_from_env (uri : str) : envres :=
+  match urlsplit_radio uri with
+  | None => EnvRaise
+  | Some (_, path, _) =>
+      match split_on c_slash (strip c_slash path) with
+      | _ :: _ :: a :: _ => match py_int16 a with Some v => EnvAddr v | None => EnvNone end
+      | _ => EnvAddr DEFAULT_ADDR
+      end
+  end.
